@@ -69,6 +69,76 @@ def split_stmts(b):
     return [x for x in out if x]
 
 
+def if_chain(st):
+    """`if (c1) b1 else if (c2) b2 … [else bn]` -> [(cond text or None, body text)], or None when `st` is not an if statement"""
+    out = []
+    rest = st.strip()
+    while True:
+        m = re.match(r'if\s*\(', rest)
+        if not m:
+            if out:
+                out.append((None, rest))
+                return out
+            return None
+        i = m.end()
+        d = 1
+        while i < len(rest) and d:
+            d += rest[i] == '('
+            d -= rest[i] == ')'
+            i += 1
+        cond = rest[m.end():i - 1]
+        body = rest[i:].lstrip()
+        if body.startswith('{'):
+            j, d = 1, 1
+            while j < len(body) and d:
+                d += body[j] == '{'
+                d -= body[j] == '}'
+                j += 1
+        else:
+            j = body.find(';') + 1
+        out.append((cond, body[:j]))
+        rest = body[j:].lstrip()
+        if not rest:
+            return out
+        if not rest.startswith('else'):
+            return None
+        rest = rest[4:].lstrip()
+
+
+def c_eval(cond, env):
+    """value of a C condition over the integer variables of `env`; None when it mentions anything else"""
+    e = cond.replace('&&', ' and ').replace('||', ' or ')
+    e = re.sub(r'!(?!=)', ' not ', e)
+    try:
+        return bool(eval(e, {'__builtins__': {}}, dict(env)))
+    except Exception:
+        return None
+
+
+def counter_guard_gap(st):
+    """does the if-chain `st` end the run with the out-of-range error for every counter beyond the number of instances?
+    Returns None when it does, ('not-a-guard', None) when `st` is not a returning chain that mentions the counter, else
+    ('gap', assignment) with a concrete assignment the chain lets through (or sends to another outcome)."""
+    ch = if_chain(st)
+    if not ch or 'TransformationCounter' not in st:
+        return ('not-a-guard', None)
+    for n in range(0, 3):
+        for c in range(n + 1, n + 3):
+            for to in (-1, c, c + 1):
+                env = {'TransformationCounter': c, 'ValidInstanceNum': n, 'ToCounter': to}
+                fired = None
+                for cond, body in ch:
+                    v = True if cond is None else c_eval(cond, env)
+                    if v:
+                        fired = body
+                        break
+                # a branch whose condition cannot be evaluated is another precondition of the transformation: if it
+                # fires the run ends in that error; the worst case for the protocol is that it does not
+                if fired is None or 'return' not in fired or not re.search(r'TransError\s*=\s*Trans(MaxInstance|ToCounterTooBig)Error', fired):
+                    return ('gap', env)
+    return None
+
+
 class Extractor:
     def __init__(self, repo):
         self.D = os.path.join(str(repo), 'clang_delta')
@@ -151,7 +221,7 @@ class Extractor:
                 kinds.append('q')
             elif 'checkCounterValidity' in st and 'return' in st:
                 kinds.append('w')
-            elif 'TransMaxInstanceError' in st and 'TransformationCounter' in st and 'return' in st:
+            elif 'TransMaxInstanceError' in st and 'TransformationCounter' in st and 'return' in st and counter_guard_gap(st) is None:
                 kinds.append('c')
             else:
                 kinds.append('r' if self.is_rewriting(cls, st) else 'n')
